@@ -1,7 +1,8 @@
 /-! Concrete carriers for *executing* the model in the native driver: the scalar field of order ℓ as `Nat` modulo ℓ
-    and a sparse free module over named basis elements. Nothing is proved about these carriers (the theorems in
-    `Bpp/*` hold over any field and module); they are validated against curve25519-dalek's `Scalar` and the
-    harness's free-module group by the correspondence check. -/
+    and a sparse free module over named basis elements. `Bpp/ScalarField.lean` proves that ℓ is prime and that `Fl` on canonical
+    representatives is the field `ZMod ℓ`; nothing is proved about `SVec` (the theorems in `Bpp/*` hold over any
+    module); both are validated against curve25519-dalek's `Scalar` and the harness's free-module group by the
+    correspondence check. -/
 namespace Model
 
 def ell : Nat := 2^252 + 27742317777372353535851937790883648493
@@ -12,15 +13,13 @@ deriving BEq, DecidableEq, Repr
 
 namespace Fl
 def ofNat (n : Nat) : Fl := ⟨n % ell⟩
-def powNat (b e : Nat) : Nat := Id.run do
-  let mut r := 1
-  let mut b := b % ell
-  let mut e := e
-  while e > 0 do
-    if e % 2 == 1 then r := r * b % ell
-    b := b * b % ell
-    e := e / 2
-  return r
+/-- square-and-multiply, at most `fuel` steps (structural recursion, so that `Bpp/ScalarField.lean` can prove it) -/
+def powAux : Nat → Nat → Nat → Nat → Nat
+  | 0, r, _, _ => r
+  | fuel + 1, r, b, e =>
+    if e = 0 then r else powAux fuel (if e % 2 = 1 then r * b % ell else r) (b * b % ell) (e / 2)
+/-- `b ^ e mod ℓ` for `e < 2^256` -/
+def powNat (b e : Nat) : Nat := powAux 256 1 (b % ell) e
 end Fl
 
 instance : Add Fl := ⟨fun a b => ⟨(a.v + b.v) % ell⟩⟩
